@@ -90,9 +90,12 @@ PickV(j) == IF (j % 2) \in Vals THEN j % 2 ELSE CHOOSE v \in Vals : TRUE
 Item(j, c) == [k |-> ArgK(j, c, PickR(j)), v |-> IF Mode = "set" THEN UnitVal ELSE ArgV(j, PickV(j))]
 ItemSeqsOf(n) == {[j \in 1..n |-> Item(j, cs[j])] : cs \in [1..n -> Classes]}
 
+\* what the source iterator claims through size_hint: nothing ("none"), the truth ("exact"), or an
+\* upper bound of zero ("zero": safe code may lie); the result must not depend on it
+Hints == {"none", "exact", "zero"}
 BulkOps(ts) ==
   IF ts # <<>> THEN {}
-  ELSE {[name |-> "from_iter", items |-> it] : it \in UNION {ItemSeqsOf(n) : n \in 0..(cap + MaxExtra)}}
+  ELSE {[name |-> "from_iter", items |-> it, hint |-> h] : it \in UNION {ItemSeqsOf(n) : n \in 0..(cap + MaxExtra)}, h \in Hints}
        \cup {[name |-> "from_array", items |-> it] : it \in ItemSeqsOf(cap)}
 
 SubOps ==
@@ -132,9 +135,9 @@ SetCoreOps(ts) ==
   \cup {[name |-> "s_fmt", style |-> st] : st \in FmtStyles}
 
 SetBulkOps(ts) ==
-  {[name |-> "s_extend", items |-> it] : it \in UNION {ItemSeqsOf(n) : n \in 0..((cap - Len(ts)) + MaxExtra)}}
+  {[name |-> "s_extend", items |-> it, hint |-> h] : it \in UNION {ItemSeqsOf(n) : n \in 0..((cap - Len(ts)) + MaxExtra)}, h \in Hints}
   \cup (IF ts # <<>> THEN {}
-        ELSE {[name |-> "s_from_iter", items |-> it] : it \in UNION {ItemSeqsOf(n) : n \in 0..(cap + MaxExtra)}}
+        ELSE {[name |-> "s_from_iter", items |-> it, hint |-> h] : it \in UNION {ItemSeqsOf(n) : n \in 0..(cap + MaxExtra)}, h \in Hints}
              \cup {[name |-> "s_from_array", items |-> it] : it \in ItemSeqsOf(cap)})
 
 FamilyOps(ts) ==
